@@ -93,7 +93,7 @@ def load_known(prop):
         data = json.load(open(KNOWN))
     except FileNotFoundError:
         return {}, []
-    known = {e['id']: e for e in data.get('known', []) if e['property'] == prop}
+    known = {e['id']: e for e in data.get('known', []) if e['property'] == prop or prop in e.get('also', [])}
     fixed = [e for e in data.get('fixed', []) if e.get('property') == prop]
     return known, fixed
 
